@@ -714,11 +714,13 @@ def c13(tier):
     jobs = [T("transformer", "VerifC13_PrinterFrozen", {"N": W(tier, 1, 2)}),
             T("transformer", "VerifC02_Shapes", {"NODES": 4, "DEPTH": 2, "WIDTH": 3}),
             T("transformer", "VerifC08_PrinterDegenerate", {"NODES": 3, "DEPTH": 2}),
+            T("graph", "VerifC13_PlainGraphFrozen", dict(FAMS["A"][0]), init_allow=["gonum.org/v1/gonum/graph/encoding/dot"]),
+            T("graph", "VerifC13_PlainGraphFrozen", dict(FAMS["H"][0]), init_allow=["gonum.org/v1/gonum/graph/encoding/dot"]),
             T("graph", "VerifC13_GraphHistory"), fam(6, "K", **FIRST), fam(6, "J", **FIRST), fam(6, "H", **FIRST),
             T("transformer", "VerifC07_Merge", {"SCEN": 0, "F": 2, "DECLS": 2, "RELS": 1, "CONDS": 1, "FAULTS": 1, "N": 1, "NR": 1}),
             T("transformer", "VerifC07_Merge", {"SCEN": 2, "N": 1, "NR": 1})]
     out = engine_a_check("C13", tier, jobs, {"VerifC13_PrinterFrozen": ["printed"], "VerifC02_Shapes": ["accepted"], "VerifC08_PrinterDegenerate": ["accepted"],
-                                             "VerifC13_GraphHistory": ["built"], "VerifGraph_Family": ["return"], "VerifC07_Merge": ["accepted"]},
+                                             "VerifC13_GraphHistory": ["built"], "VerifGraph_Family": ["return"], "VerifC07_Merge": ["accepted"], "VerifC13_PlainGraphFrozen": ["queried"]},
                          ["data races, goroutines and the parser's prediction-cache history are outside (not applicable to this technique)",
                           "decided: no store into anything reachable from the argument (frozen-object monitor) and no store into a package-level variable of the repository"], "",
                          bounds={"printer": "modular models with symbolic names (so that the sort really swaps), all C02 shapes <= 4 nodes, degenerate protos"})
@@ -733,7 +735,7 @@ def c08(tier):
             T("transformer", "VerifC07_Merge", {"SCEN": 0, "F": 2, "DECLS": 2, "RELS": 1, "CONDS": 1, "FAULTS": 1, "N": 1, "NR": 1}),
             LJ("VerifC08_ListenerRecovery", tier, NODES=1, DEPTH=0, SIBLINGS=0, CONDS=1, FIXLAYOUT=1, PARAMS=1, EXTEND=1, MODULES=1),
             T("graph", "VerifC08_GraphDegenerate", {"DEPTH": W(tier, 1, 2)}),
-            T("graph", "VerifC08_PlainGraphDegenerate"),
+            T("graph", "VerifC08_PlainGraphDegenerate", init_allow=["gonum.org/v1/gonum/graph/encoding/dot"]),
             T("utils", "VerifC08_OddLines", {"T": W(tier, 1, 2)}), T("utils", "VerifC08_FreeLine", {"L": W(tier, 6, 8)}),
             # work clause: instructions executed <= WA + WB*n*n (n relations); the unchanged tree needs about 1400*n
             T("graph", "VerifC08_BoundedWork", {"D": W(tier, 16, 40), "WA": 100000, "WB": 1000}),
